@@ -17,7 +17,7 @@ ID = "C14"
 TITLE = "Compiled condition and penalty functions measure exactly the stated violation"
 PROPS_FILE = "Props/Properties_C14.v"
 LEVEL = "proof"
-SIZES = {"quick": 2400, "thorough": 40000}
+SIZES = {"quick": 2400, "thorough": 30000}
 PARALLEL = True
 SHARD = 400
 RULE = ("cases: kind pen = general texts `lhs cmp rhs' of 1-4 lines (lhs a variable or an expression), kind iso = isolated "
@@ -26,7 +26,7 @@ RULE = ("cases: kind pen = general texts `lhs cmp rhs' of 1-4 lines (lhs a varia
         "by constants / names from locals, penalty multiplier k default or overridden (h overridden too: no effect at "
         "iteration 0); points on dyadic grids, random floats, tiny and large magnitudes, with lhs placed exactly on the "
         "boundary, one ulp beside it, inside the tol sliver, at / around rhs+-tol(rhs); tol/rel default or overridden (0, "
-        "dyadic, negative); short vectors; non-trivial = some line is violated or a boundary placement was used; "
+        "dyadic, negative); short vectors; plus, on every run, a deterministic sweep comparator x 13 boundary placements x 3 magnitudes of `x0 cmp x1'; non-trivial = some line is violated or a boundary placement was used; "
         "distinct = distinct case JSON")
 TRUSTED = ["real-number axioms of Coq's standard library (theorems are stated over the NumR instance of the model)",
            "the harness prints one expression tree both as mystic text and as a Gallina term (harness/props/c13_ast.py)",
@@ -165,6 +165,13 @@ def generate(rng, n, tier):
     # fixed regression points: the F7 sliver, seen through the condition / the penalty
     yield dict(kind="pen", scheme={"type": "x"}, nv=2, lines=[dict(lhs=["v", 0], cmp=">", rhs=["v", 1], eqeq=False)], locals={},
                tl=None, x=[5e-16, 0.0], nvars=None, kopt=None, fmt=[0], places=["sliver-above"])
+    # deterministic boundary sweep (every run, every seed): each comparator x each placement of x0 around rhs = x1
+    for c in A.CMPS:
+        for mode in A.PLACEMENTS[1:]:
+            for f in (0.0, 3.0, -1e+20):
+                v = A.place(rng, mode, f, 1e-15, 1e-15)
+                yield dict(kind="iso", cls="single", scheme={"type": "x"}, nv=2, lines=[dict(lhs=0, cmp=c, rhs=["v", 1], eqeq=False)],
+                           locals={}, tl=None, x=[v, f], nvars=None, kopt=None, fmt=[0], places=[mode])
     for i in range(n):
         if rng.random() < 0.3:
             yield _gen_iso(rng, tier)
